@@ -70,6 +70,28 @@ class C14(Prop):
                     t = r.choice(G.TEST_NAMES)
                     ops += [{"op": "dumpfs"}, G.op_match_doc(r.choice(["json", "standjson"]), 0, t, bad, r.choice(["string", "bytes"])), {"op": "dumpfs"}]
             cases.append({"ci": False, "updvar": "unset", "colour": False, "ops": ops, "meta": {"groups": groups}})
+        # DEEPLY nested documents (arrays, objects, mixed) around the depth limits of common validators (encoding/json refuses
+        # more than 10000 levels; the library's validator and printer have no limit): valid JSON at every depth - accepted, and
+        # stored alike in both text forms. Stored without indentation to keep the text small. Depths up to 300 are compared with
+        # the model; beyond that the cases are ORACLE ONLY (the extracted model needs time cubic in the depth), and there is no
+        # value form (this harness cannot build the Go value of a document deeper than encoding/json reads).
+        for i in range(max(4, n // 40)):
+            r = rng.fork()
+            d = r.choice([50, 300, 1000, 9999, 10000, 10001, 12000])
+            kind = r.below(3)
+            if kind == 0:
+                deep = b"[" * d + b"]" * d
+            elif kind == 1:
+                deep = b'{"k":' * d + b"1" + b"}" * d
+            else:
+                deep = b'[{"k":' * (d // 2) + b"null" + b"}]" * (d // 2)
+            ops = []
+            for form in ("string", "bytes"):
+                doc = deep if form == "string" else deep.replace(b":", b" : ").replace(b"[", b"[ ")
+                ops.append({"op": "jsonsnap", "doc": hx(doc), "form": form, "grp": "deep%d" % i, "ast": "deep %d" % d, "deep": True,
+                            "json": {"width": 0, "indent": "", "sortKeys": True}})
+            cases.append({"ci": False, "updvar": "unset", "colour": False, "ops": ops,
+                          "meta": {"groups": [{"idx": [0, 1], "ast": "deep %d" % d}], "oracle_only": d > 300}})
         return cases
 
     @staticmethod
@@ -112,6 +134,8 @@ class C14(Prop):
             if len(set(same_form)) > 1:
                 fails.append({"msg": "presentations of one document stored differently: %s" % ast[:80]})
             for raw, (v, t) in items:
+                if raw.get("deep"):
+                    continue         # (Python's own parser does not read that deep; the stored text is compared with the model's)
                 try:
                     a = json.loads(unhx(t).decode("utf-8", "surrogateescape"))
                     b = json.loads(ast)
